@@ -409,7 +409,7 @@ class Gen:
         n = self.n
         self.gen_long()
         self.gen_sigma(n // 10)
-        self.gen_case(n // 40)          # x 11 targets per string
+        self.gen_case(n // 20)          # x 11 targets per string
         self.gen_strip(n // 6)          # x 2 evaluations
         self.gen_int(n // 3)
         self.gen_ints(n // 5)
